@@ -346,8 +346,22 @@ func matchKnown(kfs []KnownFinding, prop string, facts map[string]string) *Known
 		}
 		ok := true
 		for _, key := range sortedKeysStr(k.Match) {
-			if !strings.Contains(facts[key], k.Match[key]) {
-				ok = false
+			want := k.Match[key]
+			switch {
+			case want == "*": // any non-empty value
+				if facts[key] == "" {
+					ok = false
+				}
+			case strings.HasPrefix(want, "!"): // must not contain
+				if strings.Contains(facts[key], want[1:]) {
+					ok = false
+				}
+			default:
+				if !strings.Contains(facts[key], want) {
+					ok = false
+				}
+			}
+			if !ok {
 				break
 			}
 		}
